@@ -17,6 +17,7 @@
     No bound on any of them. *)
 From Coq Require Import List NArith ZArith Bool String.
 From ApiFu Require Import Base.Sexp JsonApi.JsonApiModel JsonApi.JsonApiSpec JsonApi.JsonApiProofs JsonApi.JsonApiExtras.
+From ApiFu Require Import JsonApi.JsonApiBytes JsonApi.JsonApiHeap JsonApi.JsonApiHeapProofs.
 Import ListNotations.
 Open Scope Z_scope.
 
@@ -198,6 +199,54 @@ Theorem C19_status_refuted_before_fix :
   exists rq, serve_http pinned_status toy_pmt toy_choose toy_schema rq = Panic.
 Proof. exact status_refuted_before_fix. Qed.
 
+(** ** The application's maps as heap locations (JsonApiHeap.v): [serve_http_st in_place pmt choose
+    sch rq h] is the answer and the heap after the request, for schemas whose custom resolvers return
+    REFERENCES to Links / Meta maps ([in_place = false]: the code as it is). *)
+
+(** the handler never writes a map it got from a resolver: the heap after a request is the heap
+    before it, cell by cell - for every heap, schema and request *)
+Theorem C19_ja_handler_never_writes_resolver_maps : forall pmt choose (sch : hschema) rq (h : heap),
+  snd (serve_http_st false pmt choose sch rq h) = h.
+Proof. exact never_writes. Qed.
+
+(** ... and its answer is the answer of the stateless model on the schema seen through that heap
+    (so every theorem above applies to it) *)
+Theorem C19_ja_heap_refinement : forall pmt choose (sch : hschema) rq (h : heap),
+  serve_http_st false pmt choose sch rq h = (serve_http fixed pmt choose (view h sch) rq, h).
+Proof. exact heap_serve_http_eq. Qed.
+
+(** a history threads the heap from request to request; each answer is the answer the request gets
+    on its own from the initial heap, and the history hands the initial heap back *)
+Theorem C19_ja_heap_history : forall pmt choose (sch : hschema) rqs (h : heap),
+  serve_history_st false pmt choose sch rqs h = (map (serve_http fixed pmt choose (view h sch)) rqs, h).
+Proof. exact heap_history_eq. Qed.
+
+Theorem C19_ja_heap_history_independent : forall pmt choose (sch : hschema) before before' rq (h : heap),
+  nth (List.length before) (fst (serve_history_st false pmt choose sch (before ++ [rq]) h)) Panic =
+  nth (List.length before') (fst (serve_history_st false pmt choose sch (before' ++ [rq]) h)) Panic.
+Proof. exact heap_history_independent. Qed.
+
+(** the statements have content: for the variant of addStandardRelationshipLinks that fills the
+    missing self / related members into the resolver's map (seeded change C19-5) the heap changes,
+    and the second request of a history is answered differently than on its own *)
+Theorem C19_in_place_writes_refuted :
+  exists rq, snd (serve_http_st true leaky_pmt leaky_choose leaky_schema rq leaky_heap) <> leaky_heap.
+Proof. exact in_place_writes_refuted. Qed.
+Theorem C19_in_place_history_refuted :
+  exists rq1 rq2,
+    nth 1 (fst (serve_history_st true leaky_pmt leaky_choose leaky_schema [rq1; rq2] leaky_heap)) Panic <>
+    nth 0 (fst (serve_history_st true leaky_pmt leaky_choose leaky_schema [rq2] leaky_heap)) Panic /\
+    nth 1 (fst (serve_history_st false leaky_pmt leaky_choose leaky_schema [rq1; rq2] leaky_heap)) Panic =
+    nth 0 (fst (serve_history_st false leaky_pmt leaky_choose leaky_schema [rq2] leaky_heap)) Panic.
+Proof. exact in_place_history_refuted. Qed.
+
+(** ** The request body as bytes (JsonApiBytes.v): the Spec holds for the tree the reader makes of
+    ANY body text, whatever strconv.ParseFloat ([in_range]) says about its numbers *)
+Theorem C19_ja_raw_request : forall pmt choose, choose_ok choose -> forall sch in_range (r : raw_request),
+  exists st bd c, serve_http fixed pmt choose sch (request_of in_range r) = Resp st media_type bd c /\
+                  oracle pmt sch (request_of in_range r) (Some (st, media_type, Some bd)) = None.
+Proof. exact raw_request_spec. Qed.
+
 Theorem C19_nil_data_refuted_before_fix :
   exists rq, serve_http pinned_nil_data toy_pmt toy_choose toy_schema rq = Panic /\
              answer_status (serve_http fixed toy_pmt toy_choose toy_schema rq) = Some 500.
@@ -212,6 +261,13 @@ Print Assumptions C19_ja_trailing_bytes.
 Print Assumptions C19_ja_history.
 Print Assumptions C19_ja_history_independent.
 Print Assumptions C19_nil_data_refuted_before_fix.
+Print Assumptions C19_ja_handler_never_writes_resolver_maps.
+Print Assumptions C19_ja_heap_refinement.
+Print Assumptions C19_ja_heap_history.
+Print Assumptions C19_ja_heap_history_independent.
+Print Assumptions C19_in_place_writes_refuted.
+Print Assumptions C19_in_place_history_refuted.
+Print Assumptions C19_ja_raw_request.
 Print Assumptions C19_model_satisfies_spec.
 Print Assumptions C19_respects_equiv.
 Print Assumptions C19_ja_406.
